@@ -92,7 +92,7 @@ class C04(Prop):
     design_ref = '§5 C04'
     rule = ('sequences of correctly delimited frames (valid, undecodable, ignored, zero-length) plus optional truncated/garbage tail, cut into reads by '
             'five chunking styles (single bytes, whole, one cut, cuts inside every prefix, random); byte-stream mode through FrameParser and through '
-            'TransportTCP.next_frame_generator with varying read sizes; message mode incl. the empty message, and whole messages through a real message transport (TransportAioHttpWebsocket fed by a fake websocket, frames pulled through AbstractMessagingTransport.next_frame_generator); the QUIC transport (RSocketQuicProtocol + RSocketQuicTransport driven with StreamDataReceived events for the chunks and a final ConnectionTerminated, the listener task scheduled between all / none / all but the last two / random events); non-trivial = at least two frames and at least '
+            'TransportTCP.next_frame_generator with varying read sizes; message mode incl. the empty message, and whole messages through a real message transport (TransportAioHttpWebsocket fed by a fake websocket, frames pulled through AbstractMessagingTransport.next_frame_generator); the QUIC transport (RSocketQuicProtocol + RSocketQuicTransport driven with StreamDataReceived events for the chunks and a final ConnectionTerminated, the listener task scheduled between all / none / all but the last two / random events); bursts of 257..1100 small frames that are all there before the consumer runs once (TCP read, websocket message batch, QUIC events); non-trivial = at least two frames and at least '
             'one cut strictly inside a frame or its prefix (stream mode), or a message-mode case; distinct = distinct (bytes, chunking)')
     assumptions = ['the per-frame decoder is a parameter of the theorem; with the stub decoder the harness replaces rsocket.frame_parser.parse_or_ignore']
 
@@ -139,6 +139,20 @@ class C04(Prop):
             else:
                 m = rng.choice([b'', b'', b'\xee', b'\xdd\x01', FR.rbytes(rng, 1, 30)])
                 out.append({'kind': 'msg', 'msg': m.hex(), 'real': rng.random() < 0.3})
+        # bursts: hundreds of small frames that are all there before the consumer runs once (one big read / one batch of messages)
+        for i in range(9 if tier == 'quick' else 60):
+            kind = ['wsmsg', 'tcp', 'quic'][i % 3]
+            base = [FR.gen_spec(rng, kinds=['REQUEST_FNF', 'PAYLOAD', 'REQUEST_N', 'CANCEL', 'KEEPALIVE']) for _ in range(7)]
+            for b in base:
+                for k in ('md', 'd'):
+                    if b.get(k):
+                        b[k] = b[k][:16]
+            c = {'kind': kind, 'specs': [base[j % 7] for j in range(rng.choice([257, 300, 700, 1100]))], 'junk': '', 'junk_pos': 0, 'junk_undecodable': False, 'burst': True}
+            if kind == 'tcp':
+                c['read'] = 1 << 16
+            elif kind == 'quic':
+                c['seed'], c['schedule'] = rng.getrandbits(32), rng.choice(['batched', 'tail-batched'])
+            out.append(c)
         return out
 
     # -- implementation ------------------------------------------------------------------
@@ -234,10 +248,17 @@ class C04(Prop):
 
             async def go_ws():
                 t = TransportAioHttpWebsocket(WS())
-                await t.handle_incoming_ws_messages()
                 items = []
+                try:
+                    await t.handle_incoming_ws_messages()
+                except Exception as e:
+                    pump_error = 'RAISED:' + type(e).__name__      # the pump gave up: what it had queued is still read out below
+                else:
+                    pump_error = None
                 for _ in range(len(bodies) + 2):
                     if t._incoming_frame_queue.empty():
+                        if pump_error:
+                            items.append(pump_error)
                         return items, True
                     try:
                         g = await t.next_frame_generator()
@@ -246,8 +267,10 @@ class C04(Prop):
                     except Exception as e:
                         items.append('RAISED:' + type(e).__name__)
                         return items, True
+                if pump_error:
+                    items.append(pump_error)
                 return items, t._incoming_frame_queue.empty()
-            items, ok = lp.run_until_complete(asyncio.wait_for(go_ws(), 5))
+            items, ok = lp.run_until_complete(asyncio.wait_for(go_ws(), 20))
             return {'expected': expected, 'valid_only': valid_only, 'runs': {'websocket-messages': {'items': items, 'residual': '', 'terminated': ok}}, 'nbytes': len(data)}
         if kind == 'quic':
             import random
